@@ -1,7 +1,7 @@
 /-
   Helper lemmas for C16 (storage / passing style independence): the per-entry facts behind
   "`std::ptr::eq` in `compute_base_rate` is an optimisation": on two EQUAL entries the both-dogmatic mean,
-  the `ulps_eq` shortcut and its fall-back all return the entry, for every extended value.
+  the per-entry shortcut and its fall-back all return the entry, for every extended value.
   No property statements here.
 -/
 import SLV.Refine.Lift
@@ -35,15 +35,24 @@ theorem ulpsEq_self {x : XQ f} (hx : x ≠ .nan) : Scalar.ulpsEq x x = true := b
   | ninf => rfl
   | nan => exact absurd rfl hx
 
-/-- the per-entry shortcut on two equal entries returns the entry: by the reflexive `ulps_eq` test, or —
-    for a NaN entry, which fails it — because the fall-back expression is NaN too -/
+/-- `x == x` holds for every value except NaN -/
+theorem eq_self {x : XQ f} (hx : x ≠ .nan) : Scalar.eq x x = true := by
+  show XQ.eq x x = true
+  cases x with
+  | fin q => simp [XQ.eq]
+  | pinf => rfl
+  | ninf => rfl
+  | nan => exact absurd rfl hx
+
+/-- the per-entry shortcut on two equal entries returns the entry: by the reflexive `==` test (`ulps_eq!` before
+    repair c8a7116), or — for a NaN entry, which fails it — because the fall-back expression is NaN too -/
 theorem brEntry_self (x g : XQ f) (hg : x = .nan → g = .nan) : brEntry x x g = x := by
   unfold brEntry
   by_cases hx : x = .nan
   · subst hx
-    have : Scalar.ulpsEq (XQ.nan : XQ f) .nan = false := rfl
+    have : Scalar.eq (XQ.nan : XQ f) .nan = false := rfl
     rw [this, hg rfl]; rfl
-  · rw [ulpsEq_self hx, if_pos rfl]
+  · rw [eq_self hx, if_pos rfl]
 
 theorem nan_mul (y : XQ f) : (XQ.nan : XQ f) * y = .nan := by
   show XQ.mul .nan y = .nan
